@@ -530,3 +530,13 @@ func TestVerifC05Regressions(t *testing.T) {
 			map[string]any{"n": map[string]any{"f": map[string]any{"x": int64(1)}}}, map[string]any{"n": map[string]any{"f": true}}),
 	})
 }
+
+// Native fuzzing (thorough tier): the fuzzer's bytes drive the same triple generator and oracle.
+func FuzzVerifC05Merge(f *testing.F) {
+	seeds := [][]byte{{}, {1, 2, 3, 4, 5, 6, 7, 8, 9, 10, 11, 12, 13, 14, 15, 16}, {3, 0, 1, 2, 0, 1, 2, 3, 3, 3, 1, 1, 1, 0, 0, 0, 2, 2, 2}, {255, 254, 253, 252, 251, 250, 200, 150, 100, 50, 25, 12, 6, 3}}
+	vs.RunFuzz(f, "C05", "TestVerifC05MergeRandom", seeds, func(c *vs.Case) error {
+		tr := genRandomTriple(c)
+		c.Describe(tr.describe)
+		return checkMergeTriple(c, tr)
+	})
+}
